@@ -43,7 +43,7 @@ def state_fidelity(rho: np.ndarray, rho_exp: np.ndarray) -> float:
 
     """
     rho_exp = np.array(rho_exp)
-    rho_root = sqrtm(np.array(rho))
+    rho_root = _sqrtm(np.array(rho))
     if rho_root.shape != rho_exp.shape:
         msg = (
             "Mismatch in dimensions between provided density matrices, "
@@ -51,7 +51,27 @@ def state_fidelity(rho: np.ndarray, rho_exp: np.ndarray) -> float:
         )
         raise ValueError(msg)
     inner = rho_root @ rho_exp @ rho_root
-    return abs(np.trace(sqrtm(inner)))
+    return abs(np.trace(_sqrtm(inner)))
+
+
+def _sqrtm(mat: np.ndarray) -> np.ndarray:
+    """
+    Calculates the square root of a matrix. Valid density matrices are
+    hermitian and positive semi-definite, and singular for pure states, which
+    is a case the general scipy sqrtm routine does not handle reliably (it can
+    return nan values or raise an error), so in this case the square root is
+    found from the eigendecomposition instead.
+    """
+    if (
+        mat.ndim == 2
+        and mat.shape[0] == mat.shape[1]
+        and np.allclose(mat, np.conj(mat.T))
+    ):
+        vals, vecs = np.linalg.eigh(mat)
+        if vals.min() > -1e-9:
+            vals = np.clip(vals, 0, None)
+            return (vecs * np.sqrt(vals)) @ np.conj(vecs.T)
+    return sqrtm(mat)
 
 
 def process_fidelity(choi: np.ndarray, choi_exp: np.ndarray) -> float:
